@@ -181,6 +181,7 @@ class Case:
         self.dinit = dinit
         self.reads = []       # list of tokens
         self.fault = "none"
+        self.wcap = 0         # the transport accepts at most this many bytes per write (0 = all): short writes
         self.mfault = None    # fault plan for the model's twin run when its op index differs (same byte offset)
         self.scripts = []     # raw lines: "q ...", "p ...", "x ...", "i ..."
         self.meta = {}        # free-form information for oracles / evidence (not written)
@@ -204,7 +205,7 @@ class Case:
 
     def render(self):
         L = ["case %s" % self.id,
-             "cfg lim=%d tls=%d auth=%s dinit=%d" % (self.lim, self.tls, self.auth, self.dinit),
+             "cfg lim=%d tls=%d auth=%s dinit=%d" % (self.lim, self.tls, self.auth, self.dinit) + (" wcap=%d" % self.wcap if self.wcap else ""),
              "reads " + " ".join(self.reads), "fault " + self.fault]
         if self.mfault:
             L.append("mfault " + self.mfault)
